@@ -875,3 +875,134 @@ C02_SPACE_LOAD = dict(
     kwcalls=_SPACE_ON_ARRAYS,
 )
 ALL += C02_CODEC + [C02_SCREEN_SAVE, C02_SCREEN_LOAD, C02_SPACE_FROM_SCREEN, C02_SPACE_SAVE, C02_SPACE_LOAD]
+# ---- C05: scoring/gaussian_dbal.py (vocabulary: end of Model/Dbal.v) ----
+# Float arrays are lists of lists of exact rationals (arr2 / arr3; arr3n with None = NaN), the plates dict is an
+# insertion-ordered association list, a ScreenSubset is `pyplate` = (selection_vector, (means, variances)): what
+# predict_mean_all / predict_variance_all return for it.  `draws` = the recorded rng.choice answers not yet consumed.
+_ZIP_A2 = ("zip(__a, __b)", "combine {a} {b}", "list (arr2 * arr2)", {"a": "list arr2", "b": "list arr2"})
+_SHAPE_NE = ("__a.shape != __b.shape", "shape_ne {a} {b}", "bool", {"a": "arr2", "b": "arr2"})
+_PAD0 = ("pad_ragged_arrays_to_dense_array(__a, pad_value=0.0)", "!pad_means_py {a}", "arr3", {"a": "list arr2"})     # linked: C05_PAD
+_PADN = ("pad_ragged_arrays_to_dense_array(__a, pad_value=np.nan)", "!pad_vars_py {a}", "arr3n", {"a": "list arr2"})  # linked: C05_PAD
+C05_SCORE = dict(
+    file="src/batchie/scoring/gaussian_dbal.py", cls="GaussianDBALScorer", func="score",
+    out="SrcDbal.v", imports="Lib.Num Model.Dbal", name="src_score", overload=True,
+    pyparams=["self", "plates", "distance_matrix", "samples", "rng", "progress_bar"],
+    # D = distance_matrix.to_dense(); samples / rng / progress_bar occur only inside the primitives below
+    params=[("orc", "oracle"), ("max_chunk", "Z"), ("plates", "dict pyplate"), ("D", "arr2"), ("draws", "list list Z")],
+    returns="dict ext",
+    vars={"n_subs": "Z", "plate_subgroups": "list list Z", "dense_distance_matrix": "arr2", "progress_bar": "tqdm_t",
+          "result": "dict ext", "plate_subgroup": "list Z", "k": "Z", "current_plates": "list pyplate",
+          "plate_subgroup_mask": "opt list bool", "plate": "pyplate", "per_plate_means": "list arr2",
+          "per_plate_variances": "list arr2", "plate_predictions": "arr2", "plate_variances": "arr2",
+          "padded_means": "arr3", "padded_variances": "arr3n", "vals": "list ext"},
+    prims=[
+        ("self.max_chunk", "max_chunk", "Z"),
+        ("np.ceil(__a / __b)", "!np_ceil_div {a} {b}", "Z", {"a": "Z", "b": "Z"}),
+        ("np.array_split(__l, __n)", "!np_array_split {l} {n}", "list list Z", {"l": "list Z", "n": "Z"}),
+        ("list(__d.keys())", "map fst {d}", "list Z", {"d": "dict pyplate"}),
+        ("distance_matrix.to_dense()", "D", "arr2"),
+        ("tqdm.tqdm(total=len(__l), disable=not progress_bar)", "tt", "tqdm_t"),
+        ("len(__l)", "Z.of_nat (length {l})", "Z"),
+        ("__p.selection_vector", "pp_sel {p}", "list bool", {"p": "pyplate"}),
+        ("__a | __b", "!np_or_vec {a} {b}", "list bool", {"a": "list bool", "b": "list bool"}),
+        ("predict_mean_all(screen=__p, thetas=samples)", "pp_means {p}", "arr2", {"p": "pyplate"}),
+        ("predict_variance_all(screen=__p, thetas=samples)", "pp_vars {p}", "arr2", {"p": "pyplate"}),
+        _ZIP_A2, _SHAPE_NE, _PAD0, _PADN,
+        ("zip(__a, __b)", "combine {a} {b}", "list (Z * ext)", {"a": "list Z", "b": "list ext"}),
+        ("dict(__l)", "dict_of_pairs {l}", "dict ext", {"l": "list (Z * ext)"}),
+    ],
+    # the kernel with exactly these keyword arguments (distance_factor not passed = its default 1.0); it consumes one recorded draw
+    state_calls=[("dbal_fast_gauss_scoring_vectorized(predictions=__p, variances=__v, distance_matrix=__d, rng=rng, "
+                  "max_combos=self.max_triples)", ["draws"], "kernel_call orc {p} {v} {d} one_q draws", "list ext",
+                  {"p": "arr3", "v": "arr3n", "d": "arr2"})],
+    effects=[("result.update(__d)", "result'", "dict_update {state} {d}")],
+    ignore=["progress_bar.update(__a)"],
+    raises=[("plate_predictions and plate_variances must have the same shape", 24), ("plates to be scored", 28)],
+)
+ALL += [C05_SCORE]
+
+# the call of the vectorized kernel with exactly the wrapper's own arguments handed on; idxs = the recorded answer of the one
+# rng.choice call the kernel makes (its index-to-triple run is linked by C05_KERNEL_TRIPLES, its tensor expressions by the
+# correspondence only)
+_KERNEL = ("dbal_fast_gauss_scoring_vectorized(predictions=__p, variances=__v, distance_matrix=distance_matrix, rng=rng, "
+           "max_combos=max_combos, distance_factor=distance_factor)",
+           "!kernel_checked orc {p} {v} distance_matrix' distance_factor' idxs", "list ext", {"p": "arr3", "v": "arr3n"})
+_C05_WRAP = dict(
+    file="src/batchie/scoring/gaussian_dbal.py", out="SrcDbal.v", imports="Lib.Num Model.Dbal", overload=True,
+    pyparams=["per_plate_predictions", "variances", "distance_matrix", "rng", "max_combos", "distance_factor"],
+    pydefaults=["5000", "1.0"], returns="list ext",
+)
+C05_HETERO = dict(
+    _C05_WRAP, func="dbal_fast_gaussian_scoring_heteroscedastic", name="src_hetero",
+    params=[("orc", "oracle"), ("per_plate_predictions", "list arr2"), ("variances", "list arr2"), ("distance_matrix", "arr2"),
+            ("distance_factor", "qc"), ("idxs", "list Z")],
+    vars={"plate_predictions": "arr2", "plate_variances": "arr2", "padded_predictions": "arr3", "padded_variances": "arr3n"},
+    prims=[_ZIP_A2, _SHAPE_NE, _PAD0, _PADN, _KERNEL],
+    raises=[("plate_predictions and plate_variances must have the same shape", 24)],
+)
+C05_HOMO = dict(
+    _C05_WRAP, func="dbal_fast_gaussian_scoring_homoscedastic", name="src_homo",
+    params=[("orc", "oracle"), ("per_plate_predictions", "list arr2"), ("variances", "arr2"), ("distance_matrix", "arr2"),
+            ("distance_factor", "qc"), ("idxs", "list Z")],
+    vars={"plate_predictions": "arr2", "padded_predictions": "arr3", "variances_ragged_array": "list arr2", "idx": "Z",
+          "plate_variances": "list qc", "n_thetas": "Z", "n_experiments": "Z", "padded_variances": "arr3n"},
+    prims=[("len(__l)", "Z.of_nat (length {l})", "Z"),
+           ("__a.shape[0]", "dim0 {a}", "Z", {"a": "arr2"}),
+           ("__a.shape[1]", "dim1 {a}", "Z", {"a": "arr2"}),
+           ("__a.shape[0]", "Z.of_nat (length {a})", "Z", {"a": "list qc"}),          # a 1-d array
+           ("__a[__i]", "!list_get {a} {i}", "list qc", {"a": "arr2", "i": "Z"}),       # a row of a 2-d array
+           ("__v[:, None] * np.ones((__n, __e))", "!np_col_times_ones {v} {n} {e}", "arr2", {"v": "list qc", "n": "Z", "e": "Z"}),
+           _PAD0, _PADN, _KERNEL],
+    raises=[("must have the same n_plates dimension", 25), ("must have the same n_thetas dimension", 26)],
+)
+# pad_ragged_arrays_to_dense_array for arrays of ANY element type A (floats; NaN is an element like any other)
+C05_PAD = dict(
+    file="src/batchie/scoring/gaussian_dbal.py", func="pad_ragged_arrays_to_dense_array", out="SrcDbal.v",
+    imports="Lib.Num Model.Dbal", name="src_pad", pyparams=["arrays", "pad_value"], pydefaults=["0.0"],
+    params=[("A", "Type"), ("arrays", "list list list A"), ("pad_value", "A")], returns="list list list A",
+    vars={"max_sizes": "(Z * Z)", "result": "list list list A", "i": "Z", "array": "list list A"},
+    prims=[("np.array(__a.shape)", "shape2z {a}", "(Z * Z)", {"a": "list list A"}),
+           ("np.max(__l, axis=0)", "!np_max_axis0 {l}", "(Z * Z)", {"l": "list (Z * Z)"}),
+           # pad_value * ones(shape): the constant array (x * 1.0 = x for every float, NaN included); dtype of the first array
+           ("__v * np.ones((len(__l), *__m), dtype=__l[0].dtype)", "np_full3 {v} (length {l}) {m}", "list list list A",
+            {"v": "A", "m": "(Z * Z)"})],
+    assign_effects=[("result[__i, :__a.shape[0], :__a.shape[1]] = __a", "result'", "set_block {state} {i} {a}")],
+)
+ALL += [C05_PAD, C05_HETERO, C05_HOMO]
+
+# dbal_fast_gauss_scoring_vectorized: its two non-numeric runs of top-level statements (py2gal body_slice).  The tensor
+# expressions between and after them (mask, nan_to_num, alpha ... logsumexp) are NOT translated: correspondence only.
+_KERNEL_FN = dict(
+    file="src/batchie/scoring/gaussian_dbal.py", func="dbal_fast_gauss_scoring_vectorized", out="SrcDbal.v",
+    imports="Lib.Num Model.Dbal", overload=True,
+    pyparams=["predictions", "variances", "distance_matrix", "rng", "max_combos", "distance_factor"], pydefaults=["5000", "1.0"],
+)
+C05_KERNEL_CHECKS = dict(
+    _KERNEL_FN, name="src_kernel_checks",
+    body_slice=("if variances.shape != predictions.shape:", "if distance_matrix.shape[0] != predictions.shape[1]:"),
+    params=[("predictions", "arr3"), ("variances", "arr3n"), ("distance_matrix", "arr2")], returns="unit", vars={},
+    prims=[("__a.shape != __b.shape", "shape3_ne {a} {b}", "bool", {"a": "arr3n", "b": "arr3"}),
+           ("__a.shape[0]", "dim0 {a}", "Z", {"a": "arr2"}), ("__a.shape[1]", "dim1 {a}", "Z", {"a": "arr2"}),
+           ("__a.shape[1]", "dim3_1 {a}", "Z", {"a": "arr3"})],
+    raises=[("variances and predictions should have same shape", 20), ("dists must be square", 21),
+            ("must have the same n_thetas dimension", 22)],
+    implicit_return="tt",
+)
+C05_KERNEL_TRIPLES = dict(
+    _KERNEL_FN, name="src_kernel_triples",
+    body_slice=("n_plates, n_thetas, max_experiments_per_plate = predictions.shape", "idx3 = np.array(idx3)"),
+    params=[("predictions", "arr3"), ("max_combos", "Z"), ("draws", "list list Z")],
+    returns="((list Z * list Z * list Z) * list list Z)",
+    vars={"n_plates": "Z", "n_thetas": "Z", "max_experiments_per_plate": "Z", "n_theta_combinations": "Z", "n_combos": "Z",
+          "unpacked_indices": "list Z", "ind": "Z", "idx1": "list Z", "idx2": "list Z", "idx3": "list Z"},
+    prims=[("predictions.shape", "shape3z predictions'", "(Z * Z * Z)"),
+           ("comb(__n, 3, exact=True)", "comb3 {n}", "Z", {"n": "Z"}),
+           ("min(__a, __b)", "Z.min {a} {b}", "Z", {"a": "Z", "b": "Z"}),
+           ("get_combination_at_sorted_index(__i, __n, 3)", "!unrank3 {i} {n}", "(Z * Z * Z)", {"i": "Z", "n": "Z"}),
+           ("zip(*__l)", "!unzip3 {l}", "(list Z * list Z * list Z)", {"l": "list (Z * Z * Z)"}),
+           ("np.array(__a)", "{a}", "list Z", {"a": "list Z"})],          # a tuple of ints as an index array: the same values
+    state_calls=[("rng.choice(__n, size=__k, replace=False)", ["draws"], "rng_choice {n} {k} draws", "list Z", {"n": "Z", "k": "Z"})],
+    raises=[("Need at least 3 thetas to compute PDBAL", 23)],
+    implicit_return="(({idx1}, {idx2}, {idx3}), draws)",      # the three index arrays and the recorded answers not yet consumed
+)
+ALL += [C05_KERNEL_CHECKS, C05_KERNEL_TRIPLES]
